@@ -92,8 +92,15 @@ def tree_hash(extra=""):
 def _prune(dirpath, keep):
     if not os.path.isdir(dirpath): return
     for d in os.listdir(dirpath):
-        if d != keep:
+        if d != keep and not d.startswith(keep + ".tmp"):      # a concurrent check may be building the same key
             shutil.rmtree(os.path.join(dirpath, d), ignore_errors=True)
+
+def _publish(tmp, final):
+    """builds are made in a private directory and renamed into place, so that checks running side by side never see a half-written artefact"""
+    try:
+        os.rename(tmp, final)
+    except OSError:
+        shutil.rmtree(tmp, ignore_errors=True)                 # another process published the same key first
 
 def build_lib(cfg, guard=True):
     """returns (path to libpairing.a, key, objdir)"""
@@ -106,7 +113,9 @@ def build_lib(cfg, guard=True):
     if os.path.exists(lib):
         return lib, key, out
     _prune(base, key)
-    os.makedirs(out, exist_ok=True)
+    final, out = out, out + ".tmp%d" % os.getpid()
+    shutil.rmtree(final, ignore_errors=True)                   # a directory without the archive is the remains of an interrupted build
+    shutil.rmtree(out, ignore_errors=True); os.makedirs(out)
     procs = []
     objs = []
     for s in lib_sources():
@@ -122,8 +131,9 @@ def build_lib(cfg, guard=True):
         if p.returncode != 0:
             shutil.rmtree(out, ignore_errors=True)
             raise Infra("library build failed (%s): %s\n%s" % (cfg, " ".join(cmd), outp[-3000:]))
-    sh(["ar", "rcs", lib] + objs)
-    return lib, key, out
+    sh(["ar", "rcs", os.path.join(out, "libpairing.a")] + objs)
+    _publish(out, final)
+    return lib, key, final
 
 def build_driver(name, cfg, sources, guard=True, extra_flags=(), lang_cxx=True, libs=()):
     """compile harness sources against the library built in configuration cfg"""
@@ -140,11 +150,13 @@ def build_driver(name, cfg, sources, guard=True, extra_flags=(), lang_cxx=True, 
     if os.path.exists(exe):
         return exe
     _prune(base, dkey)
-    os.makedirs(os.path.dirname(exe), exist_ok=True)
+    tmpd = os.path.dirname(exe) + ".tmp%d" % os.getpid()
+    shutil.rmtree(os.path.dirname(exe), ignore_errors=True)    # a directory without the executable is the remains of an interrupted build
+    shutil.rmtree(tmpd, ignore_errors=True); os.makedirs(tmpd)
     objs = []
     procs = []
     for s in srcs:
-        o = os.path.join(os.path.dirname(exe), os.path.basename(s) + ".o")
+        o = os.path.join(tmpd, os.path.basename(s) + ".o")
         objs.append(o)
         if s.endswith(".c"):
             cflags = [f for f in flags if not f.startswith("-std=")]
@@ -155,10 +167,11 @@ def build_driver(name, cfg, sources, guard=True, extra_flags=(), lang_cxx=True, 
     for cmd, p in procs:
         outp, _ = p.communicate()
         if p.returncode != 0:
-            shutil.rmtree(os.path.dirname(exe), ignore_errors=True)
+            shutil.rmtree(tmpd, ignore_errors=True)
             raise Infra("driver build failed (%s/%s): %s\n%s" % (name, cfg, " ".join(cmd), outp[-6000:]))
-    link = [cxx] + [f for f in flags if f.startswith("-fsanitize") or f in ("-g",)] + objs + [lib] + list(libs) + ["-lpthread", "-o", exe]
+    link = [cxx] + [f for f in flags if f.startswith("-fsanitize") or f in ("-g",)] + objs + [lib] + list(libs) + ["-lpthread", "-o", os.path.join(tmpd, name)]
     sh(link)
+    _publish(tmpd, os.path.dirname(exe))
     return exe
 
 # ---------------------------------------------------------------------------------------------
